@@ -98,8 +98,16 @@ func Generate(rng *rand.Rand, o Opts) *type1.Font {
 		f.Private.BlueScale = []float64{0.05, 0.0375, 0.1}[rng.Intn(3)]
 		f.Private.BlueShift = int32(rng.Intn(10))
 		f.Private.BlueFuzz = int32(rng.Intn(3))
-		f.Private.StdHW = float64(20 + rng.Intn(50))
-		f.Private.StdVW = float64(60+rng.Intn(50)) + 0.5
+		// every combination of present / absent standard stem widths
+		switch rng.Intn(4) {
+		case 0:
+			f.Private.StdHW = float64(20 + rng.Intn(50))
+			f.Private.StdVW = float64(60+rng.Intn(50)) + 0.5
+		case 1:
+			f.Private.StdVW = float64(60 + rng.Intn(50))
+		case 2:
+			f.Private.StdHW = float64(20+rng.Intn(50)) + 0.25
+		}
 		f.Private.ForceBold = true
 		f.Private.OtherBlues = []funit.Int16{-250, -240}
 		f.ItalicAngle = -12.5
@@ -136,8 +144,19 @@ func Generate(rng *rand.Rand, o Opts) *type1.Font {
 		if o.Huge && gi > 0 {
 			nc = 12
 		}
+		cxPrev, cyPrev := 0.0, 0.0
 		for c := 0; c < nc; c++ {
-			cx, cy := coord(rng, o.Fractional), coord(rng, o.Fractional)
+			nx, ny := coord(rng, o.Fractional), coord(rng, o.Fractional)
+			if c > 0 {
+				// later contours often start exactly beside or above the point the previous one ended at
+				switch rng.Intn(4) {
+				case 0:
+					ny = cyPrev
+				case 1:
+					nx = cxPrev
+				}
+			}
+			cx, cy := nx, ny
 			g.MoveTo(cx, cy)
 			ns := 1 + rng.Intn(4)
 			if o.LongPaths && gi == 1 {
@@ -183,6 +202,7 @@ func Generate(rng *rand.Rand, o Opts) *type1.Font {
 				}
 			}
 			g.ClosePath()
+			cxPrev, cyPrev = cx, cy
 		}
 		if rng.Intn(2) == 0 {
 			a := funit.Int16(rng.Intn(300))
